@@ -274,3 +274,16 @@ package utils
 //@   ensures [crc-gate] implies(ghost(0, "cpath") == 1 && result0 > 0, result0 <= len(buf) && uf("crc32", uint32, buf[:result0]) == checksum)
 //@   ensures [length-fits] implies(ghost(0, "cpath") == 1, result0 <= len(buf))
 //@ end
+
+//@ func Uint32ToBytesLittleEndian
+//@   props C10
+//@   ensures len(result) == 4 && le32(result) == val
+//@   pure
+//@   safe
+//@ end
+
+// generic helper (type-parametric): frame only, ASSUMED
+//@ func ResizeSlice
+//@   assumed
+//@   pure
+//@ end
